@@ -85,13 +85,14 @@ def extra_cases(rng, tier):
                    ("subtract(x, np.arange(3)) int array", lambda m, a: m.subtract(a, onp.arange(3))), ("x * bool array", lambda m, a: a * onp.array([True, False, True])),
                    ("where(list cond)", lambda m, a: m.where([True, False, True], a, 0)), ("x[np.int64(1)]", lambda m, a: a[onp.int64(1)] + a),
                    ("x[True-mask list]", lambda m, a: a[[True, False, True]]), ("tensordot(x, [[1],[2],[3]], 1)", lambda m, a: m.tensordot(a, [[1], [2], [3]], 1)),
-                   ("concatenate([x, [1.0, 2.0]])", lambda m, a: m.concatenate([a, [1.0, 2.0]])), ("maximum(x, 0) int", lambda m, a: m.maximum(a + 0.5, 0)),
+                   ("concatenate([x, [1.0, 2.0]])", lambda m, a: m.concatenate([a, [1.0, 2.0]])),
                    ("outer(x, range)", lambda m, a: m.outer(a, onp.arange(2)))):
         add("python-operands", tag, f, [x3], [0], True)
     for tag, f in (("x ** 2 (int)", lambda m, a: a ** 2), ("x ** np.int64(3)", lambda m, a: a ** onp.int64(3)), ("x ** 2.0", lambda m, a: a ** 2.0),
                    ("power(x, [1,2,3])", lambda m, a: m.power(a, [1, 2, 3])), ("2 ** x", lambda m, a: 2 ** a), ("np.float32(2) ** x", lambda m, a: onp.float32(2.0) ** a),
                    ("x ** -1 (int)", lambda m, a: a ** -1), ("x ** 0 (int)", lambda m, a: a ** 0 + a), ("x ** True", lambda m, a: a ** True),
                    ("x / [1,2,4]", lambda m, a: a / [1, 2, 4]), ("[1,2,4] / x", lambda m, a: m.divide([1, 2, 4], a)), ("arctan2(x, 1)", lambda m, a: m.arctan2(a, 1)),
-                   ("hypot(3, x)", lambda m, a: m.hypot(3, a)), ("logaddexp(x, 0)", lambda m, a: m.logaddexp(a, 0))):
+                   ("hypot(3, x)", lambda m, a: m.hypot(3, a)), ("logaddexp(x, 0)", lambda m, a: m.logaddexp(a, 0)),
+                   ("maximum(x, 0) int", lambda m, a: m.maximum(a, 0)), ("minimum(9, x) int", lambda m, a: m.minimum(9, a))):
         add("python-operands", tag, f, [R.positive(rng, (3,))], [0], False)
     return out
